@@ -22,6 +22,20 @@ def partial(v, rnd):
     return v
 
 
+def partial_extra(v, rnd, p=.5):
+    """like `partial`, and every dict (at any depth) may also get a key no schema declares — the combination a relaxed
+    (`...: ...`) dict tolerates in validation but substitution refuses"""
+    if isinstance(v, dict):
+        ks = rnd.sample(list(v), rnd.randint(0, len(v))) if v else []
+        out = {k: partial_extra(v[k], rnd, p) for k in v if k in ks}
+        if rnd.random() < p:
+            out["extra!!"] = rnd.choice([1, "admin", None])
+        return out
+    if isinstance(v, list):
+        return [partial_extra(x, rnd, p) for x in v]
+    return v
+
+
 def ellipsize(v, rnd):
     if isinstance(v, list) and v and rnd.random() < .5:
         v = list(v)
@@ -65,8 +79,64 @@ def batch(ctx, n, **opts):
             pass
         if isinstance(w, dict):
             vals += [({**w, "extra!!": 1}, "extrakey")]
+        if isinstance(w, (dict, list)):
+            vals += [(partial_extra(w, ctx.rnd), "partial+extrakey"), (partial_extra(w, ctx.rnd, 1.0), "partial+extrakey")]
         for v, tag in vals:
             cases.append(SubCase(s, w, v, tag))
+    return cases
+
+
+def open_dict_any_cases(ctx, n):
+    """directed: unions whose alternatives are relaxed (`...: ...`) dicts with several required keys, against values that
+    give a subset of the keys and/or keys nobody declares, bare and nested (validation tolerates both under `...: ...`,
+    substitution must not turn that into a schema accepting more than the original)"""
+    from d42 import schema, optional
+    r = ctx.rnd
+    fields = [("id", schema.int.min(1), 5), ("name", schema.str.len(1, 10), "bob"), ("tags", schema.list(schema.str), ["a"]),
+              ("ok", schema.bool, True), ("n", schema.none, None)]
+    cases = []
+    for _ in range(n):
+        fs = r.sample(fields, r.randint(1, 3))
+        keys = {}
+        for k, sc, _w in fs:
+            keys[optional(k) if r.random() < .2 else k] = sc
+        keys[...] = ...
+        alts = [schema.dict(keys)]
+        for _ in range(r.randint(0, 2)):
+            alts.append(r.choice([schema.none, schema.int, schema.dict({"id": schema.str}), schema.dict({"zz": schema.int, ...: ...}),
+                                  schema.dict, schema.list(schema.int)]))
+        r.shuffle(alts)
+        s = schema.any(*alts)
+        full = {k: w for k, _sc, w in fs}
+        v = {k: full[k] for k in full if r.random() < .6}
+        if r.random() < .7:
+            v[r.choice(["role", "extra!!", 7])] = r.choice(["admin", 1, None])
+        wrap = r.choice(["bare", "dict", "listT", "listE", "any"])
+        if wrap == "dict":
+            s, v, full = schema.dict({"k": s, "z": schema.int}), {"k": v}, {"k": full, "z": 1}
+        elif wrap == "listT":
+            s, v, full = schema.list(s), [v], [full]
+        elif wrap == "listE":
+            s, v, full = schema.list([schema.int, s]), [1, v], [1, full]
+        elif wrap == "any":
+            s = schema.any(schema.str, s)
+        cases.append(SubCase(s, full, v, "open-dict-any"))
+    return cases
+
+
+def untyped_pair_cases(ctx):
+    """directed: positions without a declared type (bare list / dict / any, relaxed dicts, the `...` part of element lists)
+    given values that contain scalars equal under `==` but of different kinds (True / 1 / 1.0, False / 0 / 0.0 / -0.0, "1")"""
+    import itertools
+    from d42 import schema
+    scal = [True, 1, 1.0, False, 0, 0.0, -0.0, "1", None]
+    cases = []
+    for a, b in itertools.permutations(scal, 2):
+        for s, v in ((schema.list, [a, b]), (schema.dict, {"x": a, "y": b}), (schema.any, [a, [b]]),
+                     (schema.dict({"k": schema.int, ...: ...}), {"k": 5, "x": a, "y": b}),
+                     (schema.list([schema.str, ...]), ["s", a, b]), (schema.list(schema.any), [a, b]),
+                     (schema.dict({"m": schema.dict}), {"m": {"x": a, "y": [b]}})):
+            cases.append(SubCase(s, v, v, "untyped-pair"))
     return cases
 
 
